@@ -12,6 +12,7 @@
 //        after every step one field: state,crc,timers,conn,four,addpath | out | app | result
 //   FRM <id> <chunk hex>,<chunk hex>,...       push chunks into Connection and extract frames
 //   RDM <id> <hex>                             read_message on this source
+//   RDS <id> <k> <hex>                         read_message until the source is exhausted; the source hands out at most k octets per read
 use std::io::Write;
 use std::net::{IpAddr, Ipv4Addr};
 use bytes::Bytes;
@@ -302,6 +303,33 @@ pub fn run(args: &[String]) {
             "FSM" => rt.block_on(fsm_case(f[2] == "1", f[3].parse().unwrap(), f[4], f.get(5).unwrap_or(&""))),
             "FRM" => rt.block_on(frm_case(f[2])),
             "SCK" => rt.block_on(sck_case(f[2], f[3])),
+            "RDS" => {
+                // read_message called until the source is exhausted, on a reader that hands out at most k octets per read()
+                struct Chunked { data: Vec<u8>, pos: usize, k: usize }
+                impl std::io::Read for Chunked {
+                    fn read(&mut self, buf: &mut [u8]) -> std::io::Result<usize> {
+                        let n = buf.len().min(self.k).min(self.data.len() - self.pos);
+                        buf[..n].copy_from_slice(&self.data[self.pos..self.pos + n]);
+                        self.pos += n;
+                        Ok(n)
+                    }
+                }
+                let k: usize = f[2].parse().unwrap();
+                let src = unhex(f[3]);
+                guard(move || {
+                    let mut buf = [0u8; 4096];
+                    let mut rd = Chunked { data: src, pos: 0, k };
+                    let mut out = vec![];
+                    for _ in 0..64 {
+                        match read_message(&mut rd, &mut buf) {
+                            Ok(None) => { out.push("none".to_string()); break }
+                            Err(_) => { out.push("E".to_string()); break }
+                            Ok(Some(b)) => out.push(format!("ok:{}", hex(b))),
+                        }
+                    }
+                    out.join(",")
+                }).unwrap_or("PANIC".into())
+            }
             "RDM" => {
                 let src = unhex(f[2]);
                 guard(move || {
